@@ -4,6 +4,7 @@ import (
 	"encoding/binary"
 	"encoding/json"
 	"fmt"
+	"strings"
 
 	pb "google.golang.org/protobuf/proto"
 
@@ -268,6 +269,7 @@ func requestCases(rng *lib.Rand, thorough bool) []jcase {
 	} {
 		cs = append(cs, req(10, eUnk, "hostile URL", "GET", u, nil))
 	}
+	cs = append(cs, geometryCases(rng, thorough)...)
 	cs = append(cs,
 		req(10, eUnk, "POST maxlabel 0", "POST", "/lm/maxlabel/0", nil),
 		req(10, eUnk, "POST maxlabel non-numeric", "POST", "/lm/maxlabel/x", nil),
@@ -328,6 +330,103 @@ func elementCases(rng *lib.Rand, thorough bool) []jcase {
 		}
 		c.NewE = randElems(1 + rng.Intn(3))
 		cs = append(cs, c)
+	}
+	return cs
+}
+
+// Sizes, offsets and counts in URLs: every endpoint that takes them is asked for geometries
+// whose voxel count overflows (or wraps to something small) in 64-, 32- or 31-bit arithmetic,
+// at offsets where data is stored (the seed puts a label block, an image block, ROI spans and
+// an annotation at the origin), so that a handler that lets the size through goes on to use it.
+func geometryCases(rng *lib.Rand, thorough bool) []jcase {
+	sizes3 := []string{
+		"2097152_2097152_2097152",          // 2^63: negative as int64
+		"4194304_2097152_2097152",          // 2^64: wraps to 0
+		"4194304_4194304_2097152",          // 2^65: wraps to 0
+		"2097152_2097152_2097153",          // 2^63 + 2^42
+		"320_107367629_536903681",          // 2^64 + 64: wraps to 64
+		"2147483647_2147483647_2147483647", // (2^31-1)^3
+		"1048576_1048576_1048576",          // 2^60
+		"65536_65536_16",                   // 2^36: beyond every request limit, wraps to 0 as uint32
+		"2048_2048_1024",                   // 2^32 voxels, small factors
+		"-64_-64_64",                       // negative x negative
+		"-2097152_-2097152_2097152",        // negative x negative, 2^63
+		"4294967296_4294967296_1",          // 2^32 per dimension (beyond int32)
+		"0_64_64",
+		"64_64_-2147483648",
+	}
+	offsets3 := []string{"0_0_0", "2147483584_0_0", "-2147483648_-2147483648_-2147483648"}
+	// (sizes between the request limit and ~2^31 voxels are honest large requests, not generated:
+	// the child runs under ulimit -v)
+	sizes2 := []string{"65536_65536", "2147483647_2147483647", "-64_-64", "2097152_2097152", "0_0", "4294967296_1", "1048576_4096"}
+	if !thorough {
+		offsets3 = offsets3[:2]
+	}
+	var cs []jcase
+	add := func(name, method, url string, body []byte) {
+		cs = append(cs, req(10, eUnk, name, method, url, body))
+	}
+	tiny := make([]byte, 64)
+	for _, sz := range sizes3 {
+		for _, off := range offsets3 {
+			add("roi mask geometry", "GET", "/roi/mask/0_1_2/"+sz+"/"+off, nil)
+			add("labelmap raw geometry", "GET", "/lm/raw/0_1_2/"+sz+"/"+off, nil)
+			add("labelmap blocks geometry", "GET", "/lm/blocks/"+sz+"/"+off, nil)
+			add("annotation elements geometry", "GET", "/ann/elements/"+sz+"/"+off, nil)
+			add("annotation blocks geometry", "GET", "/ann/blocks/"+sz+"/"+off, nil)
+			add("image raw geometry", "GET", "/img/raw/0_1_2/"+sz+"/"+off, nil)
+			add("image subvolblocks geometry", "GET", "/img/subvolblocks/"+sz+"/"+off, nil)
+		}
+		// a body far shorter than the size announces
+		add("labelmap POST raw geometry", "POST", "/lm/raw/0_1_2/"+sz+"/0_0_0", tiny)
+		add("image POST raw geometry", "POST", "/img/raw/0_1_2/"+sz+"/0_0_0", tiny)
+		add("labelmap supervoxels raw geometry", "GET", "/lm/raw/0_1_2/"+sz+"/0_0_0?supervoxels=true&compression=lz4", nil)
+	}
+	for _, sz := range sizes2 {
+		for _, plane := range []string{"0_1", "0_2", "1_2"} {
+			add("labelmap slice geometry", "GET", "/lm/raw/"+plane+"/"+sz+"/0_0_0", nil)
+			add("image slice geometry", "GET", "/img/raw/"+plane+"/"+sz+"/0_0_0", nil)
+		}
+		add("labelmap isotropic geometry", "GET", "/lm/isotropic/0_1/"+sz+"/0_0_0", nil)
+		add("image isotropic geometry", "GET", "/img/isotropic/0_1/"+sz+"/0_0_0", nil)
+		add("labelmap pseudocolor geometry", "GET", "/lm/pseudocolor/0_1/"+sz+"/0_0_0", nil)
+		add("image arb geometry", "GET", "/img/arb/0_0_0/10_0_0/0_10_0/"+sz, nil)
+	}
+	for _, res := range []string{"0", "-1", "1e-300", "NaN", "Inf", "-Inf", "0_0", "1e300"} {
+		add("image arb resolution", "GET", "/img/arb/0_0_0/10_0_0/0_10_0/"+res, nil)
+		add("image arb resolution, far corners", "GET", "/img/arb/0_0_0/2147483647_0_0/0_2147483647_0/"+res, nil)
+	}
+	for _, n := range []string{"2147483647", "-2147483648", "65536", "4294967296", "2097152", "1"} {
+		add("roi partition count", "GET", "/roi/partition?batchsize="+n, nil)
+		add("roi partition count (optimized)", "GET", "/roi/partition?batchsize="+n+"&optimized=true", nil)
+		add("image blocks span", "GET", "/img/blocks/0_0_0/"+n, nil)
+		add("labelmap scale", "GET", "/lm/raw/0_1_2/16_16_16/0_0_0?scale="+n, nil)
+		add("labelmap listlabels count", "GET", "/lm/listlabels?number="+n, nil)
+		add("keyvalue range of numbers", "GET", "/kv/keyrangevalues/"+n+"/"+n+"?json=true", nil)
+		add("neuronjson range of numbers", "GET", "/nj/keyrange/"+n+"/"+n, nil)
+	}
+	for _, b := range []string{
+		"2147483647,2147483647,2147483647", "-2147483648,-2147483648,-2147483648", "0,0,0,2147483647,0,0", "1048576,1048576,1048576",
+		"2097152,2097152,2097152", "4294967296,0,0",
+	} {
+		add("labelmap specificblocks coordinates", "GET", "/lm/specificblocks?blocks="+b, nil)
+		add("image specificblocks coordinates", "GET", "/img/specificblocks?blocks="+b, nil)
+	}
+	for _, q := range []string{
+		"minx=-2147483648&maxx=2147483647&miny=-2147483648&maxy=2147483647&minz=-2147483648&maxz=2147483647",
+		"minx=2147483647&maxx=-2147483648", "minz=4294967296", "maxx=-1&exact=true", "minx=0&maxx=0&format=rles&scale=7",
+	} {
+		add("labelmap sparsevol bounds", "GET", "/lm/sparsevol/1?"+q, nil)
+		add("labelmap sparsevol-coarse bounds", "GET", "/lm/sparsevol-coarse/1?"+q, nil)
+		add("labelmap sparsevol-size bounds", "GET", "/lm/sparsevol-size/1?"+q, nil)
+	}
+	for _, pt := range []string{"2147483647_2147483647_2147483647", "-2147483648_-2147483648_-2147483648", "2147483647_0_0", "4294967296_0_0"} {
+		add("labelmap label at extreme point", "GET", "/lm/label/"+pt, nil)
+		add("labelmap sparsevol-by-point extreme", "GET", "/lm/sparsevol-by-point/"+pt, nil)
+		add("annotation element at extreme point", "DELETE", "/ann/element/"+pt, nil)
+		add("annotation move to extreme point", "POST", "/ann/move/1_1_1/"+pt, nil)
+		add("roi ptquery extreme", "POST", "/roi/ptquery", []byte("[["+strings.ReplaceAll(pt, "_", ",")+"]]"))
+		add("labelmap labels extreme", "GET", "/lm/labels", []byte("[["+strings.ReplaceAll(pt, "_", ",")+"]]"))
 	}
 	return cs
 }
